@@ -649,24 +649,26 @@ func CheckCausalityOf(evs []sched.Event, name string, res *runner.Result, wit ma
 	// loop noticed before the harness goroutine got to write its second note still counts
 	type iv struct{ b, e int }
 	var commits []iv
-	open := -1
+	// commits of different goroutines (the harness's own writer and a commit made from a yield point) can overlap:
+	// BEGIN notes are queued and each COMMIT note closes the oldest open one. The intervals so formed cover exactly
+	// the same stretch of the log as the true ones (every interval starts at a true begin and ends at a true end).
+	var open []int
 	for i, e := range evs {
 		if e.Inst != name || e.Point != "harness" {
 			continue
 		}
 		if strings.HasPrefix(e.Note, "APP BEGIN") {
-			open = i
+			open = append(open, i)
 		} else if strings.HasPrefix(e.Note, "APP COMMIT") {
-			b := open
-			if b < 0 {
-				b = i
+			b := i
+			if len(open) > 0 {
+				b, open = open[0], open[1:]
 			}
 			commits = append(commits, iv{b, i})
-			open = -1
 		}
 	}
-	if open >= 0 {
-		commits = append(commits, iv{open, len(evs)})
+	for _, b := range open {
+		commits = append(commits, iv{b, len(evs)})
 	}
 	prevBefore := -1 // index of send.before_txn of the previous upload
 	curBefore := -1
